@@ -38,6 +38,10 @@ pub struct MReq {
     pub cycled: bool,
     /// An explicit `sync()` already ran in this request.
     pub synced: bool,
+    /// `cycle_id()` ran after the last explicit `sync()` (or with none so far): the id the store
+    /// was last told about is not the current one. Dedup-key material only: an implementation may
+    /// keep hidden "which id does the store know" state that the redacted Debug output cannot show.
+    pub cycled_since_sync: bool,
     /// Maintained by the driver: server mutators that changed the map while the real object
     /// kept reporting its state as `Unchanged` (feeds abstract violation keys only).
     pub unmarked: BTreeSet<&'static str>,
@@ -100,6 +104,7 @@ impl Model {
                 invalidated: false,
                 cycled: false,
                 synced: false,
+                    cycled_since_sync: false,
                 unmarked: BTreeSet::new(),
             },
             None => {
@@ -114,6 +119,7 @@ impl Model {
                     invalidated: false,
                     cycled: false,
                     synced: false,
+                    cycled_since_sync: false,
                     unmarked: BTreeSet::new(),
                 }
             }
@@ -193,6 +199,7 @@ impl Model {
                 let mid = self.fresh_mid();
                 let r = self.req.as_mut().unwrap();
                 r.id_new = mid;
+                r.cycled_since_sync = true;
                 if r.came_with.is_some() {
                     r.cycled = true;
                 }
